@@ -46,7 +46,8 @@ var pattern = func() []byte {
 
 const emitScript = `#!/bin/bash
 # usage: emit.sh <pattern-file> <step>...   w<N> write the next N pattern bytes, s<MS> sleep,
-# x<CODE> exit with CODE, h hang until interrupted
+# x<CODE> exit with CODE, h hang until interrupted, t talk: 64 bytes every 50 ms until interrupted,
+# then a last burst of 700 bytes
 pat=$1; shift
 off=0
 for st in "$@"; do
@@ -55,6 +56,8 @@ for st in "$@"; do
     s*) ms=${st#s}; sleep $(printf '%d.%03d' $((ms/1000)) $((ms%1000)));;
     x*) exit ${st#x};;
     h) trap 'exit 130' INT TERM; while :; do sleep 0.05; done;;
+    t) trap 'tail -c +$((off+1)) "$pat" | head -c 700; exit 130' INT TERM
+       while :; do tail -c +$((off+1)) "$pat" | head -c 64; off=$((off+64)); sleep 0.05; done;;
   esac
 done
 exit 0
